@@ -180,7 +180,9 @@ NetEvent(e) ==
     /\ UNCHANGED <<node, up, stor, dur, app, cfg, run, rdi>>
     /\ pre' = NoPre
     /\ evt' = [NoEvt EXCEPT !.ev = e.ev, !.a = IF "a" \in DOMAIN e THEN e.a ELSE [x |-> 0]]
-    /\ gh' = gh
+    /\ gh' = IF e.ev = "LeaseStart"
+             THEN [gh EXCEPT !.lease = [on |-> TRUE, leader |-> e.a.leader, members |-> Range(e.a.members), term |-> e.a.term]]
+             ELSE gh
 
 NodeEvent(e) ==
     LET j == e.n IN
